@@ -1,7 +1,7 @@
 // sim::Val: the element type placed into fcppt containers that store user values.
 // Unique id, heap payload (so a leak or a double destruction is visible to the ledger / ASan),
 // copies are fault sites (`copy:k` throws sim::Fault, and the payload allocation is an `alloc`
-// site through the replaced operator new); moves never throw.
+// site through the replaced operator new); moves never throw; the type's own swap is a `copy` site.
 #ifndef SIM_SEAMS_VAL_HPP
 #define SIM_SEAMS_VAL_HPP
 #include "../core/ctx.hpp"
@@ -69,6 +69,19 @@ public:
     delete payload_;
     payload_ = nullptr;
     --val_stats().live;
+  }
+  // the type's own swap (found by argument-dependent lookup, as containers call it): a fault site
+  // of kind `copy` - a swap implemented with copies may throw, and nothing has been exchanged then
+  friend void swap(Val &a, Val &b)
+  {
+    if (fault::hit(fault::copy))
+      throw Fault{"simulated failure while swapping two values"};
+    long const id = a.id_;
+    a.id_ = b.id_;
+    b.id_ = id;
+    long *const p = a.payload_;
+    a.payload_ = b.payload_;
+    b.payload_ = p;
   }
   long id() const { return id_; }
   bool moved_from() const { return payload_ == nullptr; }
